@@ -708,78 +708,104 @@ func ruleSampleBounds(c *Ctx, r *R) {
 			continue
 		}
 		found := 0
-		instrs(fn, func(b *ssa.BasicBlock, i int, in ssa.Instruction) {
-			st, ok := in.(*ssa.Store)
-			if !ok {
-				return
-			}
-			ia, ok := st.Addr.(*ssa.IndexAddr)
-			if !ok {
-				return
-			}
-			ex, ok := resolveVal(ia.Index).(*ssa.Extract)
-			if !ok {
-				return
-			}
-			call, ok := ex.Tuple.(*ssa.Call)
-			if !ok || !strings.HasSuffix(calleeName(&call.Call), "Next") {
-				return
-			}
-			found++
-			key := spec.fn + "|reservoir-store#" + itoa(found)
-			if ex.Index != 1 {
-				r.violated(key, st.Pos(), "the reservoir slot must be the second result (replace) of sampler.Next")
-				return
-			}
-			// the bound: the int parameter n, or len(a) of the slice parameter
-			var next ssa.Value
-			for _, ref := range *call.Referrers() {
-				if e2, ok := ref.(*ssa.Extract); ok && e2.Index == 0 {
-					next = e2
-				}
-			}
-			if next == nil {
-				r.undecided(key, st.Pos(), "first result of sampler.Next is not used")
-				return
-			}
-			// stored value must be next itself or input[next]
-			val := resolveVal(st.Val)
-			okVal := val == next
-			if ld, ok := val.(*ssa.UnOp); ok && ld.Op == token.MUL {
-				if src, ok := ld.X.(*ssa.IndexAddr); ok && resolveVal(src.Index) == next {
-					okVal = true
-				}
-			}
-			if !okVal {
-				r.violated(key, st.Pos(), "the value stored into the reservoir must be the item at position next (same sampler.Next call as the slot)")
-				return
-			}
-			// guard: next < bound
-			guarded := false
-			for _, g := range guardsOf(b) {
-				cf, ok := g.asCmp()
+		for _, fr := range deepFrames(fn, 2) {
+			fr := fr
+			instrs(fr.f, func(b *ssa.BasicBlock, i int, in ssa.Instruction) {
+				st, ok := in.(*ssa.Store)
 				if !ok {
-					continue
+					return
 				}
-				x, y, op := cf.x, cf.y, cf.op
-				if resolveVal(y) == next {
-					x, y, op = y, x, flip(op)
+				ia, ok := st.Addr.(*ssa.IndexAddr)
+				if !ok {
+					return
 				}
-				if resolveVal(x) != next || op != token.LSS {
-					continue
+				ex, ok := resolveVal(ia.Index).(*ssa.Extract)
+				if !ok {
+					return
 				}
-				yb := resolveVal(y)
-				if p, ok := yb.(*ssa.Parameter); ok && isIntType(p.Type()) {
-					guarded = true
+				call, ok := ex.Tuple.(*ssa.Call)
+				if !ok || !strings.HasSuffix(calleeName(&call.Call), "Next") {
+					return
 				}
-				for _, p := range fn.Params {
-					if isLenOf(yb, p) {
-						guarded = true
+				found++
+				key := spec.fn + "|reservoir-store#" + itoa(found)
+				if ex.Index != 1 {
+					r.violated(key, st.Pos(), "the reservoir slot must be the second result (replace) of sampler.Next")
+					return
+				}
+				// the bound: the int parameter n, or len(a) of the slice parameter
+				var next ssa.Value
+				for _, ref := range *call.Referrers() {
+					if e2, ok := ref.(*ssa.Extract); ok && e2.Index == 0 {
+						next = e2
 					}
 				}
-			}
-			r.ok(guarded, key, st.Pos(), "the reservoir store must be reached only where next < n (resp. next < len(a)): with `next == n` allowed, Sample can return n itself and SampleSlice reads past the end")
-		})
+				if next == nil {
+					r.undecided(key, st.Pos(), "first result of sampler.Next is not used")
+					return
+				}
+				// stored value must be next itself or input[next]
+				val := resolveVal(st.Val)
+				okVal := val == next
+				if ld, ok := val.(*ssa.UnOp); ok && ld.Op == token.MUL {
+					if src, ok := ld.X.(*ssa.IndexAddr); ok && resolveVal(src.Index) == next {
+						okVal = true
+					}
+				}
+				// … or at(next) where at is a function parameter bound (through the call chain) to a closure returning its
+				// argument or input[argument]
+				if vc, ok := val.(*ssa.Call); ok && len(vc.Call.Args) == 1 && resolveVal(vc.Call.Args[0]) == next {
+					if fp, ok := vc.Call.Value.(*ssa.Parameter); ok {
+						if clo := resolveFuncValue(argOf(fp, fr.chain), 0); clo != nil && len(clo.Params) == 1 {
+							all, any := true, false
+							for _, rv := range returnedBy(clo, 0) {
+								any = true
+								rv = resolveVal(rv)
+								if rv == ssa.Value(clo.Params[0]) {
+									continue
+								}
+								if ld, ok := rv.(*ssa.UnOp); ok && ld.Op == token.MUL {
+									if src, ok := ld.X.(*ssa.IndexAddr); ok && resolveVal(src.Index) == ssa.Value(clo.Params[0]) {
+										continue
+									}
+								}
+								all = false
+							}
+							okVal = any && all
+						}
+					}
+				}
+				if !okVal {
+					r.violated(key, st.Pos(), "the value stored into the reservoir must be the item at position next (same sampler.Next call as the slot)")
+					return
+				}
+				// guard: next < bound
+				guarded := false
+				for _, g := range guardsOf(b) {
+					cf, ok := g.asCmp()
+					if !ok {
+						continue
+					}
+					x, y, op := cf.x, cf.y, cf.op
+					if resolveVal(y) == next {
+						x, y, op = y, x, flip(op)
+					}
+					if resolveVal(x) != next || op != token.LSS {
+						continue
+					}
+					yb := resolveVal(argOf(resolveVal(y), fr.chain))
+					if p, ok := yb.(*ssa.Parameter); ok && isIntType(p.Type()) {
+						guarded = true
+					}
+					for _, p := range fn.Params {
+						if isLenOf(yb, p) {
+							guarded = true
+						}
+					}
+				}
+				r.ok(guarded, key, st.Pos(), "the reservoir store must be reached only where next < n (resp. next < len(a)): with `next == n` allowed, Sample can return n itself and SampleSlice reads past the end")
+			})
+		}
 		if found == 0 {
 			r.undecided(spec.fn+"|reservoir-store", fn.Pos(), "no store into the reservoir indexed by sampler.Next's result found")
 		}
